@@ -206,7 +206,7 @@ def run(rep, tier, seed):
     jobs.sort(key=lambda j: -j[4])
     n = ops = 0
     fails = []
-    for k, o, fl in pmap(_work, jobs):
+    for k, o, fl in dyn.pmap_w('work', _work, jobs):
         n += k
         ops += o
         fails.extend(fl)
@@ -228,3 +228,6 @@ def run(rep, tier, seed):
         rule='case = one operation sequence replayed on a stateful environment and on a functionally driven twin with the same '
         'seed; every operation is compared (state, reward, flag, observation, representations, generator bit state)',
     )
+
+
+WORKERS = {'work': _work}
